@@ -171,6 +171,19 @@ def run_case(case):
     nodes = []
     obs = []
     ran = []
+    saved_client = core._dask_default_client
+    if case.get("client"):
+        # a blocking dask Client is the process-wide default client: it owns a loop in a background thread
+        # (get_io_loop answers that loop for nodes that are not declared asynchronous)
+        user["DC"] = IOLoop(make_current=False)
+
+        class _FakeClient:
+            loop = user["DC"]
+        core._dask_default_client = lambda: _FakeClient
+    else:
+        def _no_client():
+            raise ValueError("no dask client")
+        core._dask_default_client = _no_client
     try:
         for st in case["steps"]:
             if any(i >= len(nodes) for i in st.get("ups", [])):
@@ -200,6 +213,7 @@ def run_case(case):
             snap = [[loop_code(n.loop, cur, user), n.asynchronous] for n in nodes]
             obs.append({"raised": raised, "exc": exc, "snap": snap, "thread_started": started})
     finally:
+        core._dask_default_client = saved_client
         for n in nodes:
             f = getattr(n, "file", None)
             if f is not None and hasattr(f, "close"):
